@@ -88,11 +88,16 @@ def work(task):
         seq = []
         for kk in range(0, 129):
             d = 10.0 ** (-kk / 8.0)
-            for base, sgn in ((0.0, 1), (0.0, -1), (HALF_PI, -1), (-HALF_PI, 1)):
+            bases = [(0.0, 1), (0.0, -1), (HALF_PI, -1), (-HALF_PI, 1)]
+            # the series is evaluated through cos(2 phi): its zeros (+-45 deg) and the other multiples of 15 deg are approached too
+            for m in range(-5, 6):
+                if m != 0:
+                    bases += [(m * math.pi / 12, 1), (m * math.pi / 12, -1)]
+            for base, sgn in bases:
                 phi = base + sgn * d
                 if -HALF_PI <= phi <= HALF_PI:
                     seq.append(phi)
-        seq += [0.0, HALF_PI, -HALF_PI]
+        seq += [0.0, HALF_PI, -HALF_PI] + [m * math.pi / 12 for m in range(-5, 6)]
         seq = sorted(set(seq))
         prev = None
         prev_phi = None
@@ -160,8 +165,8 @@ def run(tier, t0):
     xs = [-HALF_PI + math.pi * (i + 0.5) / 48 for i in range(48)] + [0.0, HALF_PI, -HALF_PI, 1e-9, HALF_PI - 1e-9]
     common.pmap_merge(work_sequences, [('seq', xs[i::8]) for i in range(8)], acc)
     acc.sample({'phi_rad': 1.0, 'forward': 'AuthalicProjection.forward', 'oracle': 'asin(q(phi)/q(pi/2)), q = (1-e^2)[sin/(1-e^2 sin^2) + atanh(e sin)/e], WGS84'})
-    acc.sample({'ladder': '+-10^(-k/8) from 0 and +-pi/2, k = 0..128'})
-    rule = (f'uniform grid of {n} + 1 latitudes on [-90, 90] degrees (consecutive points also checked for strict increase) and log-spaced ladders 10^(-k/8), k = 0..128, towards 0 and +-90 from both sides, '
+    acc.sample({'ladder': '+-10^(-k/8) from 0, +-pi/2 and every multiple of pi/12, k = 0..128'})
+    rule = (f'uniform grid of {n} + 1 latitudes on [-90, 90] degrees (consecutive points also checked for strict increase) and log-spaced ladders 10^(-k/8), k = 0..128, towards 0, +-90 and every multiple of 15 degrees from both sides, '
             'through AuthalicProjection.forward/inverse and from_lonlat/to_lonlat; plus all operation sequences of length 2 and 3 over forward/inverse at 53 latitudes on a shared converter; non-trivial = cases meeting every bound')
     return common.finish(PID, LEVEL, tier, acc, t0, rule, [
         'closed-form WGS84 authalic latitude with f = 1/298.257223563, evaluated through the colatitude above 40 degrees so that the oracle itself has no cancellation',
